@@ -1407,10 +1407,13 @@ mzd_t *mzd_concat(mzd_t *C, mzd_t const *A, mzd_t const *B) {
     m4ri_die("mzd_concat: C has wrong dimension!\n");
   }
 
+  word const mask_end = A->high_bitmask;
+  wi_t const wide     = A->width - 1;
   for (rci_t i = 0; i < A->nrows; ++i) {
     word *dst_truerow = mzd_row(C, i);
     word const *src_truerow = mzd_row_const(A, i);
-    for (wi_t j = 0; j < A->width; ++j) { dst_truerow[j] = src_truerow[j]; }
+    for (wi_t j = 0; j < wide; ++j) { dst_truerow[j] = src_truerow[j]; }
+    dst_truerow[wide] = (dst_truerow[wide] & ~mask_end) | (src_truerow[wide] & mask_end);
   }
 
   for (rci_t i = 0; i < B->nrows; ++i) {
